@@ -140,7 +140,10 @@ class World:
         self.api = load()
         self.classes = make_shell_classes(self.api)
         self.fs = fs
-        self.api.parsers.open = fs.open  # the I/O seam
+        if getattr(fs, "seam", True):
+            self.api.parsers.open = fs.open  # the I/O seam
+        else:
+            self.api.parsers.__dict__.pop("open", None)
         self.history_side = history_side
         self.arrays = []
         self.shells = []
@@ -382,7 +385,7 @@ def r_write_file(w, op):
 
 def _corrupt_path(w, inv):
     k = inv["kind"] % 3
-    return ["/sim/does-not-exist", None, 17][k]
+    return [w.fs.real("/sim/does-not-exist"), None, 3.5][k]
 
 
 def r_parse(w, op):
@@ -397,7 +400,7 @@ def r_parse(w, op):
         fmt = real_fmt
     fn = w.api.fn["parse_nwchem" if fmt == "nwchem" else "parse_gbs"]
     valid = spec is not None and fmt == real_fmt
-    arg = path
+    arg = w.fs.real(path)
     inv = op.get("invalid")
     if inv and not op["keep"]:
         arg = _corrupt_path(w, inv)
@@ -605,7 +608,7 @@ def r_new_iodata(w, op):
     m = make_iodata(op)
 
     def post(_):
-        w.moles.append(Entry(m, "iodata"))
+        w.moles.append(Entry(m, "iodata", {"snap0": snap(m)}))
 
     return Bound("W", "new_iodata", call=lambda: None, post=post)
 
@@ -615,9 +618,10 @@ def r_from_iodata(w, op):
     if not cands:
         m = make_iodata({"atcoords": [[0.0, 0.0, 0.0]], "conventions": {"0,c": ["1"]},
                          "shells": [{"icenter": 0, "l": 0, "kind": "c", "exps": [1.1, 0.3], "coeffs": [0.4, 0.7]}]})
-        w.moles.append(Entry(m, "iodata"))
+        w.moles.append(Entry(m, "iodata", {"snap0": snap(m)}))
         cands = [w.moles[-1]]
-    m = cands[op["md"] % len(cands)].obj
+    ment = cands[op["md"] % len(cands)]
+    m = ment.obj
     fn = w.api.fn["from_iodata"]
     arg = m
     valid = True
@@ -635,6 +639,9 @@ def r_from_iodata(w, op):
 
     b = Bound("W" if op["keep"] else "query", "from_iodata", call=lambda: fn(arg), args=[arg], post=post, importy=False)
     b.valid = valid
+    # shells made by from_iodata share storage with the molecule; once the user has updated such a shell in
+    # place the molecule itself has changed and a world that only mirrors the *original* molecule is no reference
+    b.pristine_ok = snap(m) == ment.meta.get("snap0")
     return b
 
 
@@ -652,9 +659,35 @@ def r_update(w, op):
                 out.append(s)
         return out
 
+    factor = op.get("factor")
+
+    def scaled(arr):
+        """Current values with one entry (or, for 2.0 / 0.5, everything) multiplied by ``factor``."""
+        new = np.array(arr, dtype=float)
+        if factor in (2.0, 0.5):
+            return new * factor
+        flat = new.reshape(-1)
+        if flat.size:
+            flat[op.get("factor_index", 0) % flat.size] *= factor
+        return new
+
     def mutate():
         touched = [sh]
-        if what == "coeffs":
+        if factor is not None and what in ("coeffs", "exps"):
+            cur = sh.coeffs if what == "coeffs" else sh.exps
+            new = scaled(cur)
+            if how == "inplace":
+                cur[...] = new
+                touched = affected(cur)
+                w.probe("inplace_update_of_shared_array", int(len(touched) > 1))
+            elif what == "coeffs":
+                sh.coeffs = new
+            else:
+                sh.exps = new
+            w.probe("multiplicative_update")
+            if factor not in (2.0, 0.5) and abs(factor - 1) < 1e-4:
+                w.probe("tiny_update")
+        elif what == "coeffs":
             K = sh.exps.shape[0]
             rows = np.array([[c * (1.0 + 0.29 * (i // 4)) for c in op["coeffs"][i % 4]] for i in range(K)], dtype=float)
             if how == "inplace":
@@ -755,7 +788,11 @@ def corrupt(v, kind, k):
     if kind == "bdict":
         return [None, {}, {"Xx": []}][k % 3]
     if kind == "atoms":
-        c = k % 6
+        c = k % 8
+        if c == 6:
+            return [str(a).upper() for a in v]
+        if c == 7:
+            return [str(a).lower() for a in v]
         if c == 4:
             return list(v)[:-1]
         if c == 5:
